@@ -130,4 +130,38 @@ CONF["C11"] = {
     "assumptions": ["reference interpreter + layout give the set of records complete before an offset"],
 }
 
+CONF["C12"] = {
+    "pkg": "c12",
+    "level": "exploration",
+    "technique": "rapid-generated timestamp / compressed-header / local-time sequences compared with a model of the FIT time rules (reference interpreter), plus a deterministic sweep of second counts",
+    "level_text": "Generated search against a model of the time rules that shares no code with the decoder: streams biased to explicit timestamps (values near 5-bit rollovers, below/above the system-time marker, 0, 0xFFFFFFFF), runs of compressed-timestamp records on local types 0-3 (also of unknown messages), other date_time fields that must not re-base, and local_date_time fields with and without a reference, in both byte orders; every time field of every decoded message is compared.",
+    "level_note": "Trusted: the time model in harness/fitmodel/interp.go. Not decided (counted): compressed record before any non-zero reference; everything after a reference-less local timestamp until the next explicit one; sums that pass 2^32-1; narrower definitions carrying their own invalid pattern.",
+    "quick": {"checks": 4000, "timeout": 300, "shrinktime": "10s"},
+    "thorough": {"checks": 150000, "timeout": 1500, "shards": 8, "shrinktime": "30s"},
+    "rule": "sequences: GenStream restricted to messages with time fields in activity/monitoring/schedules/course/weight files, 4..60 records, compressed headers on about half the records, time fields favoured; non-trivial = at least one 5-bit rollover, at least two re-bases and at least two decided compressed records in the same stream; distinct by fingerprint of the stream. arithmetic: 33 second counts x both byte orders through timestamp, another date_time, a compressed record and a local timestamp.",
+    "assumptions": ["time model of harness/fitmodel/interp.go"],
+}
+CONF["C13"] = {
+    "pkg": "c13",
+    "level": "exploration",
+    "technique": "rapid state machine (define / data / compressedData / dataUndefined over the 16 local types) with the reference interpreter's slot model as invariant after every step; metamorphic slot-independence check",
+    "level_text": "Stateful generated search: histories of definitions, redefinitions (other message, field list, sizes, byte order), data records and compressed-header records over all 16 local types are built step by step; after every step the whole stream is decoded and compared with a model that keeps its own 16 definition slots. A data record on a never-defined local type must fail and leave exactly the earlier messages. Metamorphic: inserting a definition of a local type no later record uses never changes the decoded messages.",
+    "level_note": "Trusted: reference interpreter slot model; messages are chosen among those the file type holds so that values are observable.",
+    "quick": {"checks": 1200, "timeout": 300, "shrinktime": "10s", "steps": 40},
+    "thorough": {"checks": 40000, "timeout": 1800, "shards": 8, "shrinktime": "30s", "steps": 60},
+    "rule": "machine: rapid t.Repeat over actions define(local 0-15), data(defined local), compressedData(defined local 0-3), dataUndefined (ends the history), invariant = decode-and-compare after each step (each invariant run is one evaluation); non-trivial history = at least 3 local types defined, a redefinition that changes message or byte order, and a compressed header on local type 1-3; distinct by fingerprint of the final stream. undefined: the 16+4 never-defined local types. slot-independence: one inserted definition per history.",
+    "assumptions": ["reference interpreter"],
+}
+CONF["C16"] = {
+    "pkg": "c16",
+    "level": "exploration",
+    "technique": "differential over all 8 decode option sets on rapid-generated streams with unknown items and part-way failures (undefined local type, truncation, bad CRC), with model tallies for the unknown-item counts",
+    "level_text": "Generated search: each stream (unknown messages, unknown fields of known and of unknown messages, developer fields; one in three made to fail part-way) is decoded under all 8 combinations of logger / unknown-fields / unknown-messages and a drawn chunking; messages, error text and bytes consumed must be identical, logger output only with a logger, lists only when requested, sorted, duplicate free, and the counts equal to the reference interpreter's tallies (on failure: between the tally of completed records and that plus the record in progress).",
+    "level_note": "Trusted: reference interpreter tallies (unknown message = data record of a message number absent from the profile; unknown field = record of a known message carrying a field number not listed).",
+    "quick": {"checks": 2500, "timeout": 300, "shrinktime": "10s"},
+    "thorough": {"checks": 60000, "timeout": 1500, "shards": 8, "shrinktime": "30s"},
+    "rule": "options: GenStream (1..20 records) x drawn chunking x failure mode (none / undefined local type inserted / cut at a drawn offset / bad CRC) decoded under the 8 option sets (8 evaluations per case); non-trivial = the stream has at least one unknown message and at least one unknown field of a known message; distinct by fingerprint of (stream, chunking, failure mode).",
+    "assumptions": ["reference interpreter tallies"],
+}
+
 NOT_APPLICABLE = {}
